@@ -735,6 +735,33 @@ def array_element_structures(ctx):
                           dict(det, got=repr(first)))
         else:
             ctx.event("array_element_structure_writes_kept")
+        # second witness of the same mechanism (the elements of an array member are plain list entries, not proxied): a
+        # scalar element changed in place -- by index, negative index or slice
+        text2 = "union B { uint8 b[4]; uint32 w; uint16 h[2]; };"
+        ctx.evaluation(("array-element-scalar", endian))
+        ctx.cell("route:scalar-element-of-array-member")
+        det2 = {"text": text2, "endian": endian, "workload": "array-element-structures"}
+        try:
+            cs2 = lib.load(text2, endian, False, False)
+            b = cs2.B(b"\x01\x02\x03\x04")
+            b.b[-1] = 9
+            b.b[0:2] = [7, 7]
+            first2 = (int(b.w), [int(x) for x in b.h], b.dumps())
+            b.b = b.b
+            second2 = (int(b.w), b.dumps(), [int(x) for x in b.b])
+        except Exception as e:  # noqa: BLE001
+            ctx.violation("array-element", f"write-through-array-element-structure-raises:{type(e).__name__}",
+                          dict(det2, error=lib.exc_sig(e)))
+            continue
+        bo = "little" if endian == "<" else "big"
+        new = bytes([7, 7, 3, 9])
+        if second2 != (int.from_bytes(new, bo), new, [7, 7, 3, 9]):
+            ctx.violation("array-element", "array-member-assigned-back-does-not-reach-the-union", dict(det2, got=repr(second2)))
+        elif first2 != (int.from_bytes(new, bo), [int.from_bytes(new[:2], bo), int.from_bytes(new[2:], bo)], new):
+            ctx.violation("array-element", "K15:in-place-change-of-a-scalar-element-of-an-array-member-does-not-reach-the-union",
+                          dict(det2, got=repr(first2)))
+        else:
+            ctx.event("array_element_scalar_writes_kept")
 
 
 def defaults_and_falsy_values(ctx):
